@@ -127,10 +127,12 @@ CHECKS = {
              'queues bijection, per-channel time order, tracked size == sum of tracked sizes), a file is deleted only if it is the oldest '
              'tracked file of its channel and some limit is exceeded at that moment, removal notifications delete nothing, and every limit '
              'holds again after a reported file was handled; two reports followed by a moved (renamed) event with any source and destination '
-             'under count and size limits: every deletion is judged against the files that really exist. z3 regex emptiness shows the path '
+             'under count and size limits: every deletion is judged against the files that really exist. The re-verification after an observer '
+             'restart (_verify_ringbuffer_files) is run for any tracked set x any on-disk set x stale sizes: books == disk afterwards, nothing '
+             'deleted on the basis of stale sizes. z3 regex emptiness shows the path '
              'filter can never match properties or tmp. files.',
         note='Trusted: CrossHair/z3, the os stub; records injected directly (time key from the concrete file names, symbolic sizes). Longer '
-             'histories and re-verification after observer restart are outside the claim.',
+             'histories are outside the claim.',
         technique='CrossHair symbolic execution of the real ringbuffer classes + z3 regex emptiness',
         design_ref='DESIGN.md section 4 C16'),
     'C02': dict(
